@@ -138,7 +138,7 @@ pub fn execute_twin(plan: &Plan, reg: &Reg) -> RunRecord {
         code_ids0: w0.code_ids.clone(),
         accounts: w1.accounts.clone(),
         ops: recs,
-        fired: BTreeMap::new(),
+        fired: bb::with(|s| s.fired.clone()),
         harness_error,
     }
 }
